@@ -47,7 +47,7 @@ def fmtOut (o : Out Bytes) : String :=
     (`ElaVerif.P2PMsg.accepts`), otherwise the oracle value carried by the op (`dflag`). -/
 def decodeFlag (st flag : String) : Bytes → Bytes → Option Bytes :=
   fun c p =>
-    let modelled := if st = "dpos" then none else ElaVerif.P2PMsg.accepts (cmdStr c) p
+    let modelled := if st = "dpos" then ElaVerif.P2PMsg.acceptsDpos (cmdStr c) p else ElaVerif.P2PMsg.accepts (cmdStr c) p
     match modelled with
     | some ok => if ok then some p else none
     | none => if flag = "1" then some p else none
